@@ -103,7 +103,9 @@ static EbErrorType svt_dec_handle_ctor(EbDecHandle **   decHandleDblPtr,
     EbErrorType return_error = EB_ErrorNone;
 
     // Allocate Memory
-    EbDecHandle *dec_handle_ptr = (EbDecHandle *)malloc(sizeof(EbDecHandle));
+    // zero-initialised: error paths (e.g. dec_pic_mgr_update_ref_pic after a failed first temporal unit)
+    // read picture-buffer pointers that nothing has set yet
+    EbDecHandle *dec_handle_ptr = (EbDecHandle *)calloc(1, sizeof(EbDecHandle));
     *decHandleDblPtr            = dec_handle_ptr;
     if (dec_handle_ptr == (EbDecHandle *)NULL)
         return EB_ErrorInsufficientResources;
